@@ -31,6 +31,7 @@ ASSUMPTIONS = [
     "(the convention of tests/test_simple_shear_2d.py: gradient 2*strain_rate, strain = strain_rate*t); "
     "strain < 0 is outside the helper's domain (it then returns the short axis; replayed and counted, not alarmed)",
 ]
+JIT_TWIN = ('diag',)   # groups of harness/jittwin.py: the numba-compiled code is run on the same battery and compared
 TRUSTED = ["recording proxy substituted for the module attribute pydrex.diagnostics.la at run time"]
 
 TOL = 1e-9
@@ -124,6 +125,18 @@ def orientation_set(rng, kind, n):
         A = np.array([perms[i] for i in idx])
         sg = rng.choice([-1.0, 1.0], size=(n, 3, 1))
         return np.ascontiguousarray(A * sg)
+    if kind == "near_uniform":
+        # the 24 proper rotations of the cube, each perturbed by ~1e-6 rad: scatter matrices isotropic up to 1e-6, NOT exactly
+        import itertools
+        grp = []
+        for perm in itertools.permutations(range(3)):
+            for sg in itertools.product([1.0, -1.0], repeat=3):
+                P = np.eye(3)[list(perm)] * np.array(sg)[:, None]
+                if np.linalg.det(P) > 0:
+                    grp.append(P)
+        A = np.array([grp[i_ % 24] for i_ in range(n)])     # exactly n grains; isotropic up to the perturbation when 24 | n
+        pert = Rotation.from_rotvec(rng.normal(scale=float(10 ** rng.uniform(-8, -4)), size=(len(A), 3))).as_matrix()
+        return np.ascontiguousarray(np.einsum("gij,gjk->gik", pert, A))
     if kind == "two_clusters":
         b1 = Rotation.random(random_state=int(rng.integers(0, 2**31)))
         b2 = Rotation.random(random_state=int(rng.integers(0, 2**31)))
@@ -136,7 +149,7 @@ def orientation_set(rng, kind, n):
     raise ValueError(kind)
 
 
-KINDS = ["random", "clustered", "girdle", "single", "clustered_tight", "axis_perms", "two_clusters"]
+KINDS = ["random", "clustered", "girdle", "single", "clustered_tight", "axis_perms", "two_clusters", "near_uniform"]
 AXES = ["a", "b", "c"]
 BAD_AXES = ["", "A", "x", "ab", "a ", "d", "abc", "0"]
 TWOFOLDS = [np.diag(d) for d in ([1.0, 1, 1], [1, -1, -1], [-1, 1, -1], [-1, -1, 1])]
@@ -259,6 +272,14 @@ def make_F(rng, kind):
     elif kind == "axisym":  # repeated largest stretch: axis not unique
         Q = impl.random_rotations(rng, 1)[0]
         F = Q @ np.diag([2.0, 2.0, 0.25]) @ Q.T
+    elif kind == "extreme_stretch":  # stretch ratios of 1e8 ... 1e12 (F F^T numerically singular): very large finite strains
+        Q = impl.random_rotations(rng, 2)
+        e_ = float(rng.uniform(9, 14))
+        F = Q[0] @ np.diag([np.exp(e_), float(rng.uniform(0.5, 2)), np.exp(-e_)]) @ Q[1].T
+    elif kind == "extreme_shear":
+        F = np.eye(3)
+        i, j = rng.choice(3, 2, replace=False)
+        F[i, j] = float(10 ** rng.uniform(4, 7)) * rng.choice([-1, 1])
     elif kind == "rotation":  # pure rotation: B = I
         F = impl.random_rotations(rng, 1)[0]
     else:
@@ -268,7 +289,7 @@ def make_F(rng, kind):
     return np.ascontiguousarray(F)
 
 
-F_KINDS = ["general", "near_identity", "stretch", "simple_shear", "axisym", "rotation"]
+F_KINDS = ["general", "near_identity", "stretch", "simple_shear", "axisym", "rotation", "extreme_stretch", "extreme_shear"]
 
 
 def check_fse_statement(res, D, F, kind, rng):
@@ -348,6 +369,8 @@ def run(ctx, res):
             n = int(rng.choice([1, 2, 3, 5, 17, 100, 1000, 3000, 10000], p=[.08, .08, .08, .1, .16, .2, .15, .1, .05]))
         else:
             n = sizes_quick[k % len(sizes_quick)] if k < 16 else int(rng.choice([1, 2, 3, 7, 50, 300]))
+        if kind == "near_uniform":
+            n = max(24, 24 * (n // 24))       # whole orbits of the cube group: isotropic scatter up to the perturbation
         A = orientation_set(rng, kind, n)
         res.count("texture:" + kind)
         res.count("n:" + ("1" if n == 1 else "2-9" if n < 10 else "10-99" if n < 100 else "100-999" if n < 1000 else ">=1000"))
@@ -456,7 +479,7 @@ def run(ctx, res):
             res.sample({"kernel": "finite_strain", "family": kind, "F": F.tolist(), "stretch": float(s), "axis": list(map(float, v))})
 
     # ---- simple shear: closed-form helper vs finite_strain
-    strains = [0.01, 0.1, 0.25, 0.5, 0.75, 1.0, 2.0, 5.0] + list(rng.uniform(0.0, 5.0, 12 if not thorough else 300))
+    strains = [0.01, 0.1, 0.25, 0.5, 0.75, 1.0, 2.0, 5.0, 50.0, 5e3, 1e5] + list(rng.uniform(0.0, 5.0, 12 if not thorough else 300))
     for eps in strains + [0.0, -0.5, -2.0]:
         eps = float(eps)
         F = np.eye(3)
